@@ -70,25 +70,25 @@ CLAIMED = {
 
 # clauses added in rounds 6-7 (appended to the claim text of the property)
 EXTRA = {
-	'C01': ' Also: a source group is always rendered with its parentheses (no decision on the rendered text), and every rendering of a range() loop takes start, bound and step from the separated arguments; the brace-initialiser conversion is applied only when the assigned node is a call. The fill-list rendering reads its operands by role, not by position. A string literal emitted between double quotes must have a body converted for that delimiter (violated today for single-quoted literals containing a double quote: known finding F52). Which assignment declares a variable is decided against every collected declaration (shared with C08). Capture lists exclude variables of scopes nested in the closure; decorator decisions search the whole list; the bound of a range loop is closed before it is pasted after the comparison; a line comment cannot end in a backslash. Known today: constructor hoisting reorders statements (F61), enumerate index increments (F62), comprehension range bound and descending ranges (F63b, F64).',
+	'C01': ' Also: a source group is always rendered with its parentheses (no decision on the rendered text), and every rendering of a range() loop takes start, bound and step from the separated arguments; the brace-initialiser conversion is applied only when the assigned node is a call. The fill-list rendering reads its operands by role, not by position. A string literal emitted between double quotes must have a body converted for that delimiter (violated today for single-quoted literals containing a double quote: known finding F52). Which assignment declares a variable is decided against every collected declaration (shared with C08). Capture lists exclude variables of scopes nested in the closure; decorator decisions search the whole list; the bound of a range loop is closed before it is pasted after the comparison; a line comment cannot end in a backslash. Known today: constructor hoisting reorders statements (F61), enumerate index increments (F62), comprehension range bound and descending ranges (F63b, F64). The alias of a Python exception class is a base of the aliases of its subclasses; every slice template consumes start, stop and step; the rendering of len() is checked for a signed conversion (known finding F71).',
 	'C02': ' Also: list-valued child selections decide each child on its own (no early stop), and classification by decorator searches the whole decorator list. Positional slices of child lists must be conditioned on the dropped position.',
-	'C03': ' Also: every walker over symbol.attrs in the reflection layer descends into the enumerated child itself, so substitution of type variables reaches every nesting level. The arms of a conditional expression are merged only when the whole reflections are equal. Kind tests over the function node classes with an implicit receiver cover Method, ClassMethod and Constructor across their if-chain. `a or b` / `a and b` typed bool regardless of operands: violated today, known finding F49. A member looked up on the actualized receiver is bound on that same receiver.',
+	'C03': ' Also: every walker over symbol.attrs in the reflection layer descends into the enumerated child itself, so substitution of type variables reaches every nesting level. The arms of a conditional expression are merged only when the whole reflections are equal. Kind tests over the function node classes with an implicit receiver cover Method, ClassMethod and Constructor across their if-chain. `a or b` / `a and b` typed bool regardless of operands: violated today, known finding F49. A member looked up on the actualized receiver is bound on that same receiver. The single-pass table of unwrapping steps in ConvertionTrait.actualize lists the optional first.',
 	'C04': ' Also: no parameter default constructed at definition time is modified or handed on, and extends() is only ever called on newly created reflections (never on a symbol of the shared table). Each transpile gets a new dependency frame; class-body containers are not written through self. SymbolDB.unload deletes the rows of a module whether or not it carries the completed mark. The entrypoint store and the symbol table are each released unconditionally of the state of the other.',
-	'C05': ' Also: SymbolDB selects the rows of a module by equality of the module part, never by a prefix or substring test (one cache file per module identity). The loader and cache classes keep their memo tables per instance. The eviction pattern for older cache files is derived from the cache path by cutting at the last hyphen.',
+	'C05': ' Also: SymbolDB selects the rows of a module by equality of the module part, never by a prefix or substring test (one cache file per module identity). The loader and cache classes keep their memo tables per instance. The eviction pattern for older cache files is derived from the cache path by cutting at the last hyphen. The content fingerprint behind Module.identity is a hashlib digest of everything read from the file (no checksum, no partial or truncated digest).',
 	'C06': ' Also: can_transpile, evaluated as a boolean function of (header readable, header differs, other conditions), regenerates whenever no header can be read or it differs, and leaves an unchanged module untouched; the recorded hash must cover the module file and its imports (violated today: known finding F42).',
 	'C07': ' Also: the read of the module source lies inside the same Errors.Syntax boundary as the parser call (helper-aware), and ErrorRender stringifies error arguments only inside a try that cannot re-raise; results of functions declared to return T | None are tested before an attribute is read. Regexp terminals of the engine grammars have no nested unbounded repeats; the frozen lookup boundaries convert a missing key into their Errors class. Work-list walks over the base-class graph keep a visited collection (a cyclic hierarchy ends in an error, not in an endless loop). Modules.load converts every exception of the loading stage that is not an Errors.Error. The quotation of the reported node is built inside a protecting try.',
 	'C08': ' Also: the declaration merge compares an added variable with every collected declaration (not one representative per spelling), and constant words rewritten in rendered code are anchored. Identifier character classes in the back-end regexps are case-complete. The search over collected declarations stops early only on a positive scope comparison; class-scope visibility is decided relative to the examined class; a class member is looked up in the class namespace only; the key followed through an aliased import uses the entity name. A node is related to its parent / child by identity, never by comparing spellings.',
-	'C09': ' Also: Procedure keeps no per-node memo across runs (node identity is the path, not the tree).',
+	'C09': ' Also: Procedure keeps no per-node memo across runs (node identity is the path, not the tree). Lists handed out by list-valued methods of the node classes (prop_keys) are not changed in place when the method returns stored state.',
 	'C10': ' A memo key that mentions a parameter only through a derived value is accepted only when the method reads the parameter through that same value. Prefix tests on entry paths are separator-anchored. No slice bound is a negated value that can be zero. relativefy is called with full paths only while DSN.relativefy splits the path text at its argument. Depth-bounded queries pass depth - 1 in their recursion.',
-	'C11': ' Also: the index of the reported cause token is bounded below, and progress state written during a parse is re-initialised at the start of the next one. Regexp terminals are matched with fullmatch. The unwrap markers of _unwrap_children count and splice ALL children of a tree (placeholders of omitted optional parts included). The lexer condition that makes a minus unary accepts every character in FIRST(primary) of the grammar.',
+	'C11': ' Also: the index of the reported cause token is bounded below, and progress state written during a parse is re-initialised at the start of the next one. Regexp terminals are matched with fullmatch. The unwrap markers of _unwrap_children count and splice ALL children of a tree (placeholders of omitted optional parts included). The lexer condition that makes a minus unary accepts every character in FIRST(primary) of the grammar. The repeat loop continues while a token remains at cursor + steps, and the terminal matcher refuses exactly when none remains.',
 	'C12': ' Also: the quote scan that delimits string and regexp terminals decides on the parity of the backslash run (shared with C13); engine classes hold no state shared between rule sets; the rule-module renderer must escape per token (violated today: known finding F41). from_ast does not mutate the tree it reads. The string terminal of both meta-grammar artifacts matches every decoded control character the printer writes between quotes.',
-	'C13': ' Also: the quote scan ends on the parity of the backslash run for every quote pair, and the layout Context handed to the handlers is constructed per source. The lexer keeps no state between sources; a joined token spans from its own start. After an escaped candidate closer the scan resumes one character later; the comment scan tests no backslash. The sign / subtraction decision for a minus accepts every operand start of the grammar; no module-level state in the tokenizer files.',
+	'C13': ' Also: the quote scan ends on the parity of the backslash run for every quote pair, and the layout Context handed to the handlers is constructed per source. The lexer keeps no state between sources; a joined token spans from its own start. After an escaped candidate closer the scan resumes one character later; the comment scan tests no backslash. The sign / subtraction decision for a minus accepts every operand start of the grammar; no module-level state in the tokenizer files. The indent unit is learnt only from a non-zero width, and every read ahead of the lexer position is dominated by a bounds test.',
 	'C15': ' Also: every written record takes its name, token text and span from one and the same entry (may-reaching definitions of the span variable). Names and token texts are stored verbatim.',
-	'C17': ' Also: a string body written between quotes it was not written with is re-escaped. Where Py2Cpp chooses between the token text of an enum value and the evaluator result, the token text is taken only for Literal nodes. The hexadecimal prefix is recognised in both cases the grammar admits. The converter that re-escapes a string body for another quote is escape-aware (no context-free replace).',
-	'C14': ' import_json marks as completed the module parsed from the row key (not e.g. the declaring module of the symbol). Sibling attr paths are grouped by their whole parent path.',
+	'C17': ' Also: a string body written between quotes it was not written with is re-escaped. Where Py2Cpp chooses between the token text of an enum value and the evaluator result, the token text is taken only for Literal nodes. The hexadecimal prefix is recognised in both cases the grammar admits. The converter that re-escapes a string body for another quote is escape-aware (no context-free replace). Two ints are divided by Python\'s own true division (not through float()), and triple-quoted operands are not admitted to the one-character un-quoting of the concatenation.',
+	'C14': ' import_json marks as completed the module parsed from the row key (not e.g. the declaring module of the symbol). Sibling attr paths are grouped by their whole parent path. On every return of deserialize the symbol is computed from every key written for that record shape (up to keys the path condition equates); completion of a module with an empty export is a known finding (F70).',
 	'C16': ' Also: every attribute of the wrapped parser object that the span getter consults, as value or guard, is restored by the cache reader (obligations shared with C15). Every guard before the quotation lets a node on line 1 through.',
 	'C18': ' Also: angle brackets are treated as brackets only where the neighbouring characters do not make them operators; DecoratorHelper recognises a label by a leading identifier followed by a single `=`, and Param.parse keeps everything after the first top-level `=` as the default. Nested blocks end at their own closer (the closer is consumed exactly once) and the entry tree is enumerated at every level; no bracket position is obtained by a raw text search.',
-	'C19': ' Also: in LazyDI, operations on the by-name definitions are decided by tests of that layer (unbind removes an unresolved registration; the proxy binding happens exactly when defined and not yet materialised); every whole-store installation copies. The argument count is compared with the expected count, not with a zip-built list. By-name keys are built from the qualified name.',
+	'C19': ' Also: in LazyDI, operations on the by-name definitions are decided by tests of that layer (unbind removes an unresolved registration; the proxy binding happens exactly when defined and not yet materialised); every whole-store installation copies. The argument count is compared with the expected count, not with a zip-built list. By-name keys are built from the qualified name. rebind discards the old generation whenever the symbol is bound (no shortcut on the factory), and combine drops the left operand\'s instance / materialised binding of every symbol the right operand binds / defines.',
 }
 
 NOT_APPLICABLE = {
